@@ -177,6 +177,46 @@ def run(ctx):
         ctx.check("R5", vi, ok, "insoluble-only-unlimited", "an atom is memoised as globally insoluble only when the lookup was not limited to installed packages",
                   "merge_plan._viable memoises an atom as globally insoluble even when the lookup was limited to the installed-package repositories: a later unrestricted request for the same atom is refused", node=c)
 
+    # ---- R6 planner state captured by reference in __init__ keeps its identity -------------------------------------
+    from ..core import capture
+    mp = P.cls(pmod, "merge_plan")
+    caps = capture.captured(mp)
+    ctx.check("R6", mp, "state" in caps, "state-captured", "merge_plan.__init__ hands self.state.vdb_filter to the filter on the installed-package repositories",
+              "merge_plan.__init__ no longer captures self.state.vdb_filter (the installed-package view is not tied to the plan state)")
+    for attr, sites in sorted(caps.items()):
+        rb = capture.rebinds(mp, attr)
+        ctx.check("R6", mp, not rb, f"captured-attr-rebound:{attr}",
+                  f"merge_plan.{attr} (captured in __init__: {sites[0][1]}) is never rebound",
+                  f"merge_plan.{rb[0][0].name if rb else ''} rebinds self.{attr} although __init__ handed out a reference into the old object ({sites[0][1]}): the filter on the "
+                  f"installed-package repositories keeps consulting the abandoned state, so a second resolution on the same resolver sees different installed packages than the first",
+                  node=rb[0][1] if rb else None)
+    ctx.floor("R6", 2)
+
+    # ---- R7 "build-time dependency" means the same classes at both sites that special-case it --------------------------
+    ra7 = P.func(pmod, "merge_plan._rec_add_atom")
+    build_classes = set()
+    for c in A.calls(ra7.node):
+        if A.unparse(c.func) == "self.process_dependencies_and_blocks" and len(c.args) >= 3 and isinstance(A.try_literal(c.args[2]), str):
+            for p_ in A.parents(c):
+                if isinstance(p_, ast.If) and any(isinstance(x, ast.Attribute) and x.attr == "built" for x in ast.walk(p_.test)) and A.contains_node(p_, c) and any(A.contains_node(b_, c) for b_ in p_.body):
+                    build_classes.add(A.try_literal(c.args[2]))
+    cc = P.func(pmod, "merge_plan.check_for_cycles")
+    mode_sets = []
+    for n in A.body_walk(cc.node):
+        if isinstance(n, ast.If) and isinstance(n.test, ast.Compare) and len(n.test.ops) == 1 and isinstance(n.test.ops[0], ast.In) \
+                and isinstance(n.test.left, ast.Attribute) and n.test.left.attr == "mode":
+            v = A.try_literal(n.test.comparators[0])
+            if isinstance(v, (tuple, list, set, frozenset)):
+                mode_sets.append((n, set(v)))
+    ctx.require(build_classes and mode_sets, f"build-time classes not found (guarded={sorted(build_classes)}, cycle tests={len(mode_sets)})")
+    for n, ms in mode_sets:
+        ctx.check("R7", cc, ms == build_classes, "build-time-classes-agree:" + ",".join(sorted(ms ^ build_classes)),
+                  f"check_for_cycles breaks cycles through the installed copy for exactly the classes _rec_add_atom treats as build-time ({sorted(build_classes)})",
+                  f"check_for_cycles treats {sorted(ms)} as build-time cycles, but _rec_add_atom only skips {sorted(build_classes)} for built packages: a package first reached through "
+                  f"{sorted(ms - build_classes) or sorted(build_classes - ms)} inside an ordinary run-time cycle is forced to come from the installed set, and when it is not installed the "
+                  f"branch fails and a lower version of the target is chosen", node=n)
+    ctx.floor("R7", 1)
+
 
 MUTANTS = [
     {"name": "reuse-strategy-order", "file": "src/pkgcore/resolver/plan.py", "old": "            misc.multiplex_sorting_repo(highest_iter_sort, cls.just_livefs_dbs(dbs)),\n            misc.multiplex_sorting_repo(highest_iter_sort, cls.just_nonlivefs_dbs(dbs)),", "new": "            misc.multiplex_sorting_repo(highest_iter_sort, cls.just_nonlivefs_dbs(dbs)),\n            misc.multiplex_sorting_repo(highest_iter_sort, cls.just_livefs_dbs(dbs)),", "rule": "R1"},
